@@ -451,7 +451,8 @@ func (c *c13Run) run(nums []uint64) []uint64 {
 				ref.tainted = true
 				continue
 			case ref.nfreed == 0 && (grew != 1 || pos != uint64(oldLen)):
-				c.mon("c13:pool-growth", "creation without freed slots changed the pool size by %d and returned slot %d (pool had %d)", grew, pos, oldLen)
+				// a fresh slot somewhere else than at the end of the pool: the property does not say
+				// where new objects go; the reference cannot follow, model agreement decides
 				ref.tainted = true
 				continue
 			}
